@@ -49,7 +49,7 @@ func (w *world) runRounds(c *roundsCase) {
 					a = 0
 				}
 				pc.Ans = append(pc.Ans, [2]int{n, a})
-				pc.Rep = append(pc.Rep, n)
+				pc.Rep = append(pc.Rep, [2]int{n, 0}) // every node stores what it is sent
 			}
 			pc.normalize()
 			w.run(pc)
